@@ -916,6 +916,13 @@ def WInContract [DecidableEq α] (w : ZCWriter α) : List (WOp α) → Prop
   | [] => True
   | op :: ops => WContract w op ∧ WInContract (w.step op).1 ops
 
+instance [DecidableEq α] (w : ZCWriter α) (op : WOp α) : Decidable (WContract w op) := by
+  cases op <;> simp only [WContract] <;> infer_instance
+
+instance WInContract.dec [DecidableEq α] : ∀ (w : ZCWriter α) (ops : List (WOp α)), Decidable (WInContract w ops)
+  | _, [] => isTrue trivial
+  | w, op :: ops => @instDecidableAnd _ _ _ (WInContract.dec (w.step op).1 ops)
+
 /-- invariant of a `zcWriter` -/
 structure WGood (w : ZCWriter α) : Prop where
   /-- flushed entries come before pending ones -/
